@@ -1,18 +1,18 @@
 SPECIFICATION Spec
 CONSTANTS
   Ids = {1, 2, 3}
-  Slots = {1, 2}
+  Slots = {1}
   Accts = {1}
-  Paths = {1, 2}
+  Paths = {1}
   Keys = {1}
   MaxKids = 2
   MaxDepth = 2
-  MaxOps = 3
-  MaxTx = 2
+  MaxOps = 2
+  MaxTx = 0
   NoEvent = {3}
   Big = {2}
-  SlotRep <- MCSlotRep2
-  Forms = {}
+  SlotRep <- MCSlotRep1
+  Forms = {"bad"}
 INVARIANTS TypeOK Conservation OnePlace WellFormed EventsOnce IdleClean
 PROPERTIES DestroyedForever OnlyCommitChangesCommitted
 VIEW view
